@@ -71,6 +71,11 @@ def gen_one(rng):
             if case["after_hook"] and rng.random() < 0.4:
                 budget = sc["retry"][0] if sc["retry"] else 0
                 sc["afails"] = min(rng.choice([1, 1, 2]), budget + 1)
+    # a scenario without steps (nothing to run, but it is started and finished like any other)
+    for it in case["items"]:
+        for sc in it.get("scenarios", []):
+            if rng.random() < 0.07:
+                sc.update(steps=0, fails=0, afails=0, bfails=0)
     # released steps do not complete in lock-step: some suspend 1-3 more times before they return
     for it in case["items"]:
         for sc in it.get("scenarios", []):
@@ -83,6 +88,12 @@ def gen_one(rng):
     case["real_wait"] = rng.random() < 0.08
     # a user `which_scenario` classifier (classifying like the default one) installed last in the builder chain
     case["custom_which"] = rng.random() < 0.3
+    # with a custom classifier some serial scenarios carry NO tag: only the classifier (by scenario id) says Serial
+    if case["custom_which"]:
+        for it in case["items"]:
+            for sc in it.get("scenarios", []):
+                if sc.get("serial") and sc.get("serial_own") and rng.random() < 0.6:
+                    sc["serial_by_classifier"] = True
     # a before hook that panics (eagerly, in the hook function itself, or inside its future) in the first attempts
     case["before_hook"] = rng.random() < 0.25
     for it in items:
@@ -182,7 +193,7 @@ def describe(case, res):
             "after_hook_failure=%s" % any(sc.get("afails") for sc in scs),
             "before_hook_failure=%s" % any(sc.get("bfails") for sc in scs),
             "custom_which=%s" % bool(case.get("custom_which")), "after_gated=%s" % bool(case.get("after_gated")),
-            "real_wait=%s" % bool(case.get("real_wait")), "step_yields=%s" % any(sc.get("yields") for sc in scs),
+            "real_wait=%s" % bool(case.get("real_wait")), "stepless=%s" % any(sc.get("steps") == 0 for sc in scs), "classifier_only_serial=%s" % any(sc.get("serial_by_classifier") for sc in scs), "step_yields=%s" % any(sc.get("yields") for sc in scs),
             "scen=%s" % ("0" if not scs else "<3" if len(scs) < 3 else "<6" if len(scs) < 6 else ">=6")]
     if res is not None:
         keys.append("hang=%s" % bool(res.get("hang")))
